@@ -42,13 +42,18 @@ pub fn sig_matches(known: &str, sig: &str) -> bool {
 	known == sig
 }
 
-pub fn write_replay(id: &str, sig: &str, description: &str, case: &Value) -> PathBuf {
+pub fn write_replay(id: &str, tier: &str, sig: &str, description: &str, case: &Value) -> PathBuf {
 	let dir = verif_root().join("replays").join(id);
 	let _ = std::fs::create_dir_all(&dir);
 	let path = dir.join(format!("{:016x}.json", fnv_str(sig)));
-	let doc = json!({"property": id, "signature": sig, "description": description, "case": case});
+	let doc = json!({"property": id, "tier": tier, "signature": sig, "description": description, "case": case});
 	let _ = std::fs::write(&path, serde_json::to_string_pretty(&doc).unwrap());
 	path
+}
+
+/// tier recorded in a replay file ("quick" if absent)
+pub fn read_replay_tier(path: &str) -> String {
+	std::fs::read_to_string(path).ok().and_then(|t| serde_json::from_str::<Value>(&t).ok()).and_then(|v| v.get("tier").and_then(|t| t.as_str()).map(|s| s.to_string())).unwrap_or_else(|| "quick".into())
 }
 
 pub fn read_replay(path: &str) -> Value {
